@@ -97,6 +97,25 @@ def conv_reference(case, XA, op, varB):
         return {'ref_uncanon': str(ex)[:200]}
 
 
+def degenerate_delta(e, var):
+    """the expression, as written, has an impulse over a denominator that vanishes at the impulse
+    (texpr.FT's simplify() merges impulse terms and rational terms over a common denominator)"""
+    try:
+        n, d = e.as_numer_denom()
+        if d.is_number:
+            return False
+        for dl in n.atoms(sp.DiracDelta):
+            p = sp.Poly(dl.args[0], var)
+            if p.degree() != 1:
+                continue
+            loc = -p.coeff_monomial(1) / p.coeff_monomial(var)
+            if sp.simplify(d.subs(var, loc)) == 0:
+                return True
+    except Exception:
+        return False
+    return False
+
+
 def run_op(case, X0, op, cache):
     """returns dict for one op; cache: already computed Lcapy objects of this case"""
     kind = op['op']
@@ -170,6 +189,8 @@ def do_case(case):
             signal.alarm(0)
             r['str'] = str(X)
             e = X.sympy
+            if op['op'] == 'fwd' and e.has(sp.DiracDelta) and degenerate_delta(e, X.var):
+                r['degenerate_delta'] = True
             if e.has(sp.zoo) or e.has(sp.nan) or e.has(sp.oo):
                 r['nonfinite'] = True
             elif e.has(sp.Integral) or e.has(sp.FourierTransform) or e.has(sp.InverseFourierTransform):
